@@ -46,7 +46,11 @@ func (r *vfC02PskRun) mismatch(step int, class, what string, exp, got any) {
 func (r *vfC02PskRun) run() {
 	defer func() {
 		if p := recover(); p != nil {
-			r.mismatch(len(r.log), "psk-panic", fmt.Sprintf("panic in the channel code: %v", p), "no panic", fmt.Sprint(p))
+			if what, ok := vfc02.CodePanic(p); ok {
+				r.mismatch(len(r.log), "psk-panic", what, "no panic", what)
+				return
+			}
+			r.mismatch(len(r.log), "MACHINERY", fmt.Sprintf("panic in the harness: %v", p), nil, nil)
 		}
 	}()
 	var psk [32]byte
@@ -91,7 +95,9 @@ func (r *vfC02PskRun) run() {
 				K = r.pick.Pick(vfC02PskWrite[k], r.w.Walk, si)
 			}
 			before := wire.Written
-			n, err := wc.Write(led.Next(K))
+			var n int
+			var err error
+			vfc02.Guard("pskConn.Write", func() { n, err = wc.Write(led.Next(K)) })
 			r.log = append(r.log, map[string]any{"op": "write", "k": k, "real": K, "n": n, "err": fmt.Sprint(err)})
 			if l1(si, led.OnWrite(K, n, err)) {
 				return
@@ -152,7 +158,9 @@ func (r *vfC02PskRun) run() {
 			if cap(buf) < b {
 				buf = make([]byte, b+4096)
 			}
-			n, err := rc.Read(buf[:b])
+			var n int
+			var err error
+			vfc02.Guard("pskConn.Read", func() { n, err = rc.Read(buf[:b]) })
 			r.log = append(r.log, map[string]any{"op": "read", "rel": rel, "real": b, "avail": avail, "n": n, "err": fmt.Sprint(err)})
 			r.res.Case(fmt.Sprintf("read/%s/%v/%v", rel, op.B("nonce"), op.B("dry")))
 			if !nonceRead && wire.Served >= vfC02NonceLen {
@@ -180,7 +188,9 @@ func (r *vfC02PskRun) run() {
 		buf = make([]byte, 1<<16)
 	}
 	for it := 0; it < 64 && led.Delivered < led.Written; it++ {
-		n, err := rc.Read(buf[:1<<16])
+		var n int
+		var err error
+		vfc02.Guard("pskConn.Read", func() { n, err = rc.Read(buf[:1<<16]) })
 		r.log = append(r.log, map[string]any{"op": "drain", "n": n, "err": fmt.Sprint(err)})
 		if errors.Is(err, vfc02.ErrDry) {
 			break
